@@ -217,7 +217,8 @@ theorem glueOn_var {c : Compose.Conf} (hrep : c.replay = true) {fpa f' : Option 
   unfold glueOn at h
   split at h
   · rw [if_pos hrep] at h
-    exact friendly_var h
+    obtain ⟨rej, hc⟩ := Compose.friendlyOf_check c h
+    exact fpaCheck_var hc
   · injection h with h; rw [← (Prod.mk.inj h).1]
 
 /-- the rule object keeps its variant through the game -/
@@ -297,6 +298,9 @@ theorem glueCall_cur_ok (c : Compose.Conf) (hrep : c.replay = true) {b : Bot.St}
   unfold glueCall glueOn
   split
   · rw [if_pos hrep]
+    suffices h : ∃ x, Glue.friendlyGetMove fpa (recOf c b) b.cur.pos chk = .ok x by
+      obtain ⟨x, hx⟩ := h
+      exact ⟨x, Compose.friendlyOf_of_ok c hx⟩
     apply friendly_total_of _ _ _ _ hrule
     · intro hm
       have := hlen hm
